@@ -33,6 +33,10 @@ CLAIMED = {
             "partial: dtype clauses proved for the elementwise transform classes; closeness of float32 to float64 results is listed as not decided", "4-C19"),
     "C14": ("proof", "contract-based deductive verification: each life-cycle method of ActNorm / BatchNorm executed from every symbolic state and proved equal to the transition of the documented reference model (z3); induction over calls gives all histories",
             "histories of any length; all batch values under the stated precondition (>= 2 items, non-zero variance)", "4-C14"),
+    "C04": ("proof", "contract-based deductive verification: Flow.sample / sample_and_log_prob / log_prob executed with a row-wise uninterpreted bijection (C02 contract as axioms) and embedding; row pairing of noise, context row, sample and returned density proved (structural term check + z3)",
+            "all noise / context values, all transforms and embedding nets (uninterpreted); context rows and draws enumerated; the statistical clause is derived, not tested", "4-C04"),
+    "C18": ("proof", "contract-based deductive verification of shape and raise contracts: every cell of the (num_samples, batch_size, context rows) grid is an executed path of the real code on symbolic tensors, result shapes from real torch meta inference, documented TypeError / ValueError as raises-iff",
+            "exact for all values at each grid cell; the integer grid is bounded", "4-C18"),
 }
 REASON_TODO = "check not built yet in this session (the design in DESIGN.md section 4 applies; will be claimed when its contracts discharge)"
 props = [json.loads(l) for l in open(os.path.join(V, "properties.jsonl"))]
